@@ -5,6 +5,7 @@ MODULES = {
     "C02": "props.c02",
     "C03": "props.c03",
     "C04": "props.c04",
+    "C05": "props.c05",
     "C11": "props.c11",
 }
 
